@@ -7,6 +7,14 @@ behaviours (transition tour of the state graph, all histories of a reduced alpha
 LOCATES the returned bytes in the known content and converts byte counts to units, and TLC
 (spec/Trace_Stream.tla) recomputes the model step for every recorded call and names the failing
 clauses.  Python decides nothing.
+
+Shapes b1/b3/b4/b5 have a file "b" that is an El Torito boot file WITH A BOOT INFO TABLE, realised
+with lengths on both sides of the table's boundaries (5, 8, 9, 20, 63, 64, 65, 2049, ... bytes).
+Its content - for every reader, before and after writing - is "what it was added with, the table
+laid over bytes 8..63, cut at the end of the file" (spec/StreamContent.tla).  The table bytes are
+taken from the image written by a twin object, at the extent found by the independent decoder
+(harness/decoders/iso9660.py; nothing of pycdlib's read path), and TLC (Judge_StreamContent) checks
+that the content used is that overlay and is what the written image holds.
 """
 import det
 det.install()
@@ -21,7 +29,9 @@ import sys
 import tempfile
 
 import checklib
+import judge
 import tlc
+from decoders import iso9660
 
 PID = 'C16'
 
@@ -36,6 +46,7 @@ CONSTANTS
  SeekOffsets <- MCSeekOffsets
  Whences <- MCWhences
  BlockLabels <- MCBlockLabels
+ TableFiles <- MCTableFiles
  MaxLen = %(MaxLen)d
  Dump = "%(Dump)s"
  Shape = "%(Shape)s"
@@ -60,6 +71,7 @@ CONSTANTS
  SeekOffsets <- TNoSizes
  Whences <- TNone
  BlockLabels <- TNone
+ TableFiles <- TTableFiles
  Resync = %(Resync)s
 CHECK_DEADLOCK FALSE
 '''
@@ -88,11 +100,14 @@ def mc_run(shape, alpha='full', dump='none', maxlen=12, simulate=None, seed=0, r
                              heap='3g')
     hists = []
     lens = None
+    stats['tablefiles'] = []
     for tag, val in tlc.tagged_lines(out):
         if tag == 'HIST':
             hists.append(val)
         elif tag == 'SHAPE':
             lens = val
+        elif tag == 'TABLEFILES':
+            stats['tablefiles'] = sorted(val['files'])
     if need_ok:
         if simulate:
             if stats.get('exit') != 0 or len(hists) != simulate:
@@ -119,7 +134,25 @@ UNITS = {   # name -> bytes per unit for each model file
     'sectors':  {'z': 1, 's': 2049, 'm': 2048},   # m = whole sectors, s = one sector + 1
     'odd':      {'z': 1, 's': 700, 'm': 1000},
 }
-NAMES = {'m': 'M', 's': 'S', 'z': 'Z', 'decoy': 'N'}     # decoy N sits between M and S on the image
+NAMES = {'m': 'M', 's': 'S', 'z': 'Z', 'b': 'B', 'decoy': 'N'}     # decoy N sits between M (B) and S on the image
+PATHKINDS = {'joliet': 'joliet_path', 'udf': 'udf_path', 'rr': 'rr_path'}
+
+
+def unit_table(unitname):
+    """bytes per unit for each model file; 'b<N>': the boot file b has N bytes per unit"""
+    if unitname in UNITS:
+        return UNITS[unitname]
+    if unitname[0] == 'b' and unitname[1:].isdigit():
+        return {'b': int(unitname[1:]), 's': 700, 'z': 1, 'm': 683}
+    raise ValueError(unitname)
+
+
+def split_backing(backing):
+    """'image_udf' -> ('image', 'udf'); 'added_shared' -> ('added_shared', None)"""
+    (base, _sep, last) = backing.rpartition('_')
+    if base and last in PATHKINDS:
+        return (base, last)
+    return (backing, None)
 BLOCKS = {'1': lambda n: 1, '7': lambda n: 7, '2048': lambda n: 2048, '8192': lambda n: 8192,
           'L': lambda n: n, 'L1': lambda n: n + 1}
 
@@ -145,23 +178,40 @@ def make_content(tag, units, u):
 
 
 class Fixture(object):
-    """one way of giving the model's files to a PyCdlib object.  fresh() -> (iso, cleanup)"""
+    """one way of giving the model's files to a PyCdlib object.  fresh() -> PyCdlib object.
 
-    def __init__(self, backing, unitname, lens, scratch):
+    backing = base[_pathkind], pathkind in joliet/udf/rr (the image then has all namespaces and the
+    files are addressed by that kind of path).  bases:
+      image         files of a written image, reopened (open_fp)
+      added         files added to a new object, nothing written, no query made (layout pending)
+      added_laid    the same after one get_record() (the layout has been computed)
+      written       the same after write_fp(), on the SAME object (not reopened)
+      mixed         an opened image to which the last file (m, or the boot file b) is added
+      added_shared  all files are prefixes of ONE buffer behind ONE file object
+      added_file    files added with add_file() from the file system
+    A file of `tablefiles` is made the El Torito boot file with boot_info_table=True.
+    """
+
+    def __init__(self, backing, unitname, lens, scratch, tablefiles=()):
         import pycdlib
         self.pycdlib = pycdlib
         self.backing = backing
+        (self.base, pk) = split_backing(backing)
         self.unitname = unitname
         self.lens = dict(lens)
-        self.unit = {f: UNITS[unitname][f] for f in lens}
-        self.kind = {'image_joliet': 'joliet_path', 'image_udf': 'udf_path', 'image_rr': 'rr_path'}.get(
-            backing, 'iso_path')
-        self.ext = backing in ('image_joliet', 'image_udf', 'image_rr')
+        self.unit = {f: unit_table(unitname)[f] for f in lens}
+        self.kind = PATHKINDS.get(pk, 'iso_path')
+        self.ext = pk is not None
+        self.tablefiles = sorted(tablefiles)
+        if len(self.tablefiles) > 1:
+            raise ValueError('one boot file with a boot info table per image')
+        if self.tablefiles and self.base in ('added_shared', 'added_file'):
+            raise ValueError('no boot-info-table fixture for backing ' + backing)
         tag = backing + '/' + unitname
         self.content = {f: make_content(tag + '/' + f, lens[f], self.unit[f]) for f in lens}
         self.decoy = prbytes(tag + '/decoy', 5000)
         self.sharedbuf = None
-        if backing == 'added_shared':
+        if self.base == 'added_shared':
             # every file is a prefix of ONE buffer behind ONE file object (add_fp always reads a
             # file from offset 0 of the object it is given: inode.Inode.new(..., offset=0))
             longest = max(lens[f] * self.unit[f] for f in lens)
@@ -174,19 +224,20 @@ class Fixture(object):
             self.sharedbuf = buf
             self.content = cont
         self.files = sorted(lens)
+        self.orig = dict(self.content)      # what the files are added with
+        self.late = None                    # the file that 'mixed' adds to the opened image
+        if self.base == 'mixed':
+            self.late = 'm' if 'm' in lens else self.tablefiles[0]
         self.image = None
         self.paths = None
-        if backing.startswith('image') or backing == 'mixed':
-            on_image = [f for f in self.files if not (backing == 'mixed' and f == 'm')]
+        if self.base in ('image', 'mixed'):
             iso = self._new()
-            for f in on_image + ['decoy']:
-                data = self.decoy if f == 'decoy' else self.content[f]
-                self._add(iso, io.BytesIO(data), len(data), f)
-            out = io.BytesIO()
-            iso.write_fp(out)
-            iso.close()
-            self.image = out.getvalue()
-        if backing == 'added_file':
+            for f in [f for f in self.files if f != self.late] + ['decoy']:
+                self._add(iso, f)
+            if self.base == 'image':
+                self._boot(iso)
+            self.image = self._written(iso)
+        if self.base == 'added_file':
             self.paths = {}
             d = os.path.join(scratch, 'files-%s-%s' % (backing, unitname))
             os.makedirs(d)
@@ -194,7 +245,11 @@ class Fixture(object):
                 self.paths[f] = os.path.join(d, NAMES[f])
                 with open(self.paths[f], 'wb') as fh:
                     fh.write(self.decoy if f == 'decoy' else self.content[f])
+        self.content_obs = []               # observations for Judge_StreamContent
+        for f in self.tablefiles:
+            self._table_content(f)
 
+    # ---- building ------------------------------------------------------------------------------
     def _new(self):
         iso = self.pycdlib.PyCdlib()
         if self.ext:
@@ -210,9 +265,73 @@ class Fixture(object):
             kw.update(rr_name=n.lower(), joliet_path='/' + n.lower(), udf_path='/' + n.lower())
         return kw
 
-    def _add(self, iso, fp, length, f):
-        iso.add_fp(fp, length, **self._kw(f))
+    def _add(self, iso, f, fp=None):
+        data = self.decoy if f == 'decoy' else self.orig[f]
+        iso.add_fp(fp if fp is not None else io.BytesIO(data), len(data), **self._kw(f))
 
+    def _boot(self, iso):
+        for f in self.tablefiles:
+            kw = {}
+            if self.ext:
+                kw.update(rr_bootcatname='boot.cat', joliet_bootcatfile='/boot.cat', udf_bootcatfile='/boot.cat')
+            iso.add_eltorito('/%s.;1' % NAMES[f], '/BOOT.CAT;1', boot_info_table=True, **kw)
+
+    @staticmethod
+    def _written(iso):
+        out = io.BytesIO()
+        iso.write_fp(out)
+        iso.close()
+        return out.getvalue()
+
+    def _unwritten(self):
+        """the object of this backing before anything is written / queried"""
+        b = self.base
+        if b == 'image':
+            iso = self.pycdlib.PyCdlib()
+            iso.open_fp(io.BytesIO(self.image))
+        elif b == 'mixed':
+            iso = self.pycdlib.PyCdlib()
+            iso.open_fp(io.BytesIO(self.image))
+            self._add(iso, self.late)
+            self._boot(iso)
+        elif b in ('added', 'added_laid', 'written'):
+            iso = self._new()
+            for f in self.files + ['decoy']:
+                self._add(iso, f)
+            self._boot(iso)
+        elif b == 'added_shared':
+            iso = self._new()
+            fp = io.BytesIO(self.sharedbuf)
+            for f in self.files:
+                self._add(iso, f, fp)
+            self._add(iso, 'decoy')
+        elif b == 'added_file':
+            iso = self._new()
+            for f in self.files + ['decoy']:
+                iso.add_file(self.paths[f], **self._kw(f))
+        else:
+            raise ValueError(self.backing)
+        return iso
+
+    def _table_content(self, f):
+        """content of boot file f = what it was added with + the table the WRITTEN image has at
+        offset 8 of the file's extent (extent from the independent decoder), cut at its length"""
+        ref = self.image if self.base == 'image' else self._written(self._unwritten())
+        rep = iso9660.decode(ref)
+        want = [list(('%s.;1' % NAMES[f]).encode())]
+        recs = [r for r in rep['files']['iso'] if r['path'] == want]
+        orig = self.orig[f]
+        obs = {'id': '%s/%s/%s' % (self.backing, self.unitname, f), 'found': len(recs) == 1, 'size': 0,
+               'orig': list(orig), 'table': [], 'on_image': [], 'expected': list(orig)}
+        if recs:
+            start = recs[0]['extent'] * iso9660.SECTOR
+            table = ref[start + 8:start + 64]
+            self.content[f] = (orig[:8] + table + orig[64:])[:len(orig)]
+            obs.update(size=recs[0]['size'], table=list(table), on_image=list(ref[start:start + recs[0]['size']]),
+                       expected=list(self.content[f]), extent=recs[0]['extent'])
+        self.content_obs.append(obs)
+
+    # ---- use -----------------------------------------------------------------------------------
     def path(self, f):
         n = NAMES[f]
         return {self.kind: '/%s.;1' % n if self.kind == 'iso_path' else '/' + n.lower()}
@@ -221,55 +340,52 @@ class Fixture(object):
         return {self.kind: '/'}
 
     def fresh(self):
-        b = self.backing
-        if b.startswith('image'):
-            iso = self.pycdlib.PyCdlib()
-            iso.open_fp(io.BytesIO(self.image))
-        elif b == 'mixed':
-            iso = self.pycdlib.PyCdlib()
-            iso.open_fp(io.BytesIO(self.image))
-            self._add(iso, io.BytesIO(self.content['m']), len(self.content['m']), 'm')
-        elif b == 'added':
-            iso = self._new()
-            for f in self.files + ['decoy']:
-                data = self.decoy if f == 'decoy' else self.content[f]
-                self._add(iso, io.BytesIO(data), len(data), f)
-        elif b == 'added_shared':
-            iso = self._new()
-            fp = io.BytesIO(self.sharedbuf)
-            for f in self.files:
-                self._add(iso, fp, len(self.content[f]), f)
-            self._add(iso, io.BytesIO(self.decoy), len(self.decoy), 'decoy')
-        elif b == 'added_file':
-            iso = self._new()
-            for f in self.files + ['decoy']:
-                iso.add_file(self.paths[f], **self._kw(f))
-        else:
-            raise ValueError(b)
+        iso = self._unwritten()
+        if self.base == 'added_laid':
+            iso.get_record(**self.path(self.files[-1]))
+        elif self.base == 'written':
+            iso.write_fp(io.BytesIO())
         return iso
 
     def describe(self):
         return {'backing': self.backing, 'units': self.unitname, 'path_kind': self.kind,
-                'bytes': {f: len(self.content[f]) for f in self.files}}
+                'bytes': {f: len(self.content[f]) for f in self.files},
+                'boot_info_table_files': self.tablefiles}
 
 
 # ---------------------------------------------------------------------------------------------
 # replay of one behaviour (projection only: locate returned bytes, bytes -> units)
 # ---------------------------------------------------------------------------------------------
-def locate(data, content, u):
-    """where (unit-aligned) the returned bytes are bytes of the file"""
+def aligned(data, content, u):
+    """all unit-aligned positions (in units) at which data occurs in content"""
+    out = []
+    p = content.find(data)
+    while p >= 0:
+        if p % u == 0:
+            out.append(p // u)
+        p = content.find(data, p + 1)
+    return out
+
+
+def locate(data, content, u, orig=None):
+    """where (unit-aligned) the returned bytes are bytes of the file; orig (files with a boot info
+    table): what the file was added with - looked at only when they are NOT bytes of the file"""
     n = len(data)
     lenu, lenr = divmod(n, u)
     res = {'matches': True, 'start': 0, 'lenu': lenu, 'lenr': lenr, 'phit': False, 'pstart': 0, 'pmatch': 0}
     if n == 0:
         return res
-    p = content.find(data)
-    while p >= 0:
-        if p % u == 0:
-            res['start'] = p // u
-            return res
-        p = content.find(data, p + 1)
+    at = aligned(data, content, u)
+    if at:
+        res['start'] = at[0]
+        if len(at) > 1:
+            res['alts'] = at[1:]
+        return res
     res['matches'] = False
+    if orig is not None:
+        at = aligned(data, orig, u)
+        res['omatches'] = bool(at)
+        res['ostart'] = at[0] if at else 0
     # not bytes of the file as a whole: where does the first unit come from, how far does it agree
     if n >= u:
         for p in range(len(content) // u):
@@ -308,7 +424,8 @@ def replay(fx, beh):
                     n = len(fx.content[a['file']])
                     out = io.BytesIO()
                     iso.get_file_from_iso_fp(out, blocksize=BLOCKS[a['bs']](n), **fx.path(a['file']))
-                    r.update(locate(out.getvalue(), fx.content[a['file']], fx.unit[a['file']]))
+                    r.update(locate(out.getvalue(), fx.content[a['file']], fx.unit[a['file']],
+                                    fx.orig[a['file']] if a['file'] in fx.tablefiles else None))
                 elif k == 'List':
                     r['ret'] = len(list(iso.list_children(**fx.root())))
                     iso.get_record(**fx.path(fx.files[-1]))
@@ -317,21 +434,22 @@ def replay(fx, beh):
                         break    # outside the model (never produced by MC_stream)
                     (f, fid) = objs[a['sid']]
                     u = fx.unit[fid]
+                    orig = fx.orig[fid] if fid in fx.tablefiles else None
                     if k == 'Read':
                         if a['n'] < 0:
                             data = f.read() if a['sid'] == 1 else f.read(-1)
                         else:
                             data = f.read(a['n'] * u)
-                        r.update(locate(data, fx.content[fid], u))
+                        r.update(locate(data, fx.content[fid], u, orig))
                     elif k == 'ReadAll':
-                        r.update(locate(f.readall(), fx.content[fid], u))
+                        r.update(locate(f.readall(), fx.content[fid], u, orig))
                     elif k == 'ReadInto':
                         buf = bytearray(a['k'] * u)
                         n = f.readinto(buf)
                         if not isinstance(n, int) or n < 0 or n > len(buf):
                             r.update({'matches': False, 'lenu': 0, 'lenr': 0})
                         else:
-                            r.update(locate(bytes(buf[:n]), fx.content[fid], u))
+                            r.update(locate(bytes(buf[:n]), fx.content[fid], u, orig))
                             if any(buf[n:]):
                                 r['matches'] = False
                     elif k == 'Seek':
@@ -414,7 +532,7 @@ def _join_parts(parts, path):
 # ---------------------------------------------------------------------------------------------
 # TLC validates the traces
 # ---------------------------------------------------------------------------------------------
-def tables_module(lens):
+def tables_module(lens, tablefiles=()):
     files = sorted(lens)
     cases = ' [] '.join('f = "%s" -> %d' % (f, lens[f]) for f in files)
     return '\n'.join([
@@ -422,14 +540,15 @@ def tables_module(lens):
         'EXTENDS Naturals',
         'TabFiles == {%s}' % ', '.join('"%s"' % f for f in files),
         'TabLenOf == [f \\in TabFiles |-> CASE %s]' % cases,
+        'TabTableFiles == {%s}' % ', '.join('"%s"' % f for f in sorted(tablefiles)),
         '====', ''])
 
 
 def validate_file(args):
-    (path, lens, resync) = args
+    (path, lens, resync, tablefiles) = args
     text = TRACE_CFG % {'Resync': 'TRUE' if resync else 'FALSE'}
     out, stats = tlc.run_tlc('Trace_Stream', text, workers=1, env={'TRACE_FILE': path}, timeout=1500,
-                             heap='3g', aux_modules={'StreamTables': tables_module(lens)})
+                             heap='3g', aux_modules={'StreamTables': tables_module(lens, tablefiles)})
     res = {'diag': [], 'skip': [], 'end': [], 'stats': stats}
     for tag, val in tlc.tagged_lines(out):
         if tag == 'DIAG':
@@ -442,14 +561,14 @@ def validate_file(args):
     return res
 
 
-def validate_traces(traces, lens, resync=True):
+def validate_traces(traces, lens, resync=True, tablefiles=()):
     """traces: list of {'id', 'ev'} -> result of one Trace_Stream run (used by the self-test)"""
     d = tempfile.mkdtemp(prefix='verif-c16-')
     try:
         path = os.path.join(d, 'traces.json')
         with open(path, 'w') as fh:
             json.dump({'traces': traces}, fh)
-        res = validate_file((path, lens, resync))
+        res = validate_file((path, lens, resync, tuple(tablefiles)))
     finally:
         shutil.rmtree(d, ignore_errors=True)
     if sorted(res['end']) != sorted(t['id'] for t in traces):
@@ -467,6 +586,20 @@ def _ts(stride):
     return {'tour': stride, 'sim': 1}
 
 
+def _boot_plan(units, stride, others, sim=True):
+    """fixtures of a boot-info-table shape: for every unit size the reopened written image and the
+    not yet written object (layout computed); others: {backing: (unit size, stride)}"""
+    def kinds(st):
+        return {'tour': st, 'sim': st} if sim else {'tour': st}
+    plan = []
+    for u in units:
+        plan.append(('image', 'b%d' % u, kinds(stride)))
+        plan.append(('added_laid', 'b%d' % u, kinds(stride)))
+    for b in sorted(others):
+        plan.append((b, 'b%d' % others[b][0], kinds(others[b][1])))
+    return plan
+
+
 PLANS = {
     # tier -> [(shape, [(backing, units, {behaviour set: stride})])]
     'quick': [
@@ -482,6 +615,13 @@ PLANS = {
         ('zsm', [('added_shared', 'sector+1', {'sim': 1}),
                  ('added_shared', 'sectors', {'sim': 1}),
                  ('image', 'sectors', {'sim': 1})]),
+        # b = boot file with a boot info table; 'b<N>' = N bytes per unit
+        ('b1', _boot_plan([5, 8, 9, 20, 63, 64, 65, 2500], 24, {'added': (20, 24), 'written': (63, 24)}, sim=False)),
+        ('b4', _boot_plan([5], 8, {'added': (5, 48), 'mixed': (5, 48), 'written': (5, 48), 'image_udf': (5, 48),
+                                   'image_joliet': (5, 48)})              # 20 bytes
+               + _boot_plan([2, 16, 513], 32, {})),                      # 8, 64, 2052 bytes
+        ('b3', _boot_plan([3, 21], 12, {'added': (21, 32), 'image_rr': (21, 32), 'added_laid_joliet': (3, 32)})
+               + _boot_plan([683, 22], 32, {})),                         # 9, 63; 2049, 66 bytes
     ],
     'thorough': [
         ('zm', [('image', 'sector+1', ALL),
@@ -490,10 +630,22 @@ PLANS = {
                 ('added', 'bytes', _ts(1)), ('added', 'sectors', _ts(1)),
                 ('mixed', 'sector+1', _ts(1)), ('added_file', 'odd', _ts(1)),
                 ('image_joliet', 'sector+1', _ts(1)), ('image_udf', 'sector+1', _ts(1)),
-                ('image_rr', 'odd', _ts(1))]),
+                ('image_rr', 'odd', _ts(1)), ('written', 'sector+1', _ts(1)), ('added_laid', 'odd', _ts(2))]),
         ('zsm', [('image', 'sector+1', _ts(1)), ('added_shared', 'sector+1', _ts(1)),
                  ('added_shared', 'sectors', {'sim': 1}), ('image_udf', 'sectors', {'sim': 1})]),
         ('sm5', [('image', 'odd', _ts(1)), ('added_shared', 'odd', {'sim': 1})]),
+        ('b1', _boot_plan([5, 7, 8, 9, 20, 24, 62, 63, 64, 65, 72, 2048, 2500, 4097], 3,
+                          {'added': (20, 3), 'written': (63, 3), 'mixed': (9, 3), 'image_udf': (63, 3),
+                           'image_joliet': (20, 3), 'image_rr': (64, 3), 'added_laid_joliet': (9, 3),
+                           'added_laid_rr': (65, 3), 'added_laid_udf': (20, 3)})),
+        ('b3', _boot_plan([3, 21, 22, 683, 8], 3,                        # 9, 63, 66, 2049, 24 bytes
+                          {'added': (21, 6), 'written': (3, 6), 'mixed': (21, 6), 'image_udf': (3, 6),
+                           'image_joliet': (21, 6), 'image_rr': (21, 6), 'added_laid_joliet': (3, 6)})),
+        ('b4', _boot_plan([5, 2, 16, 513], 4,                            # 20, 8, 64, 2052 bytes
+                          {'added': (5, 8), 'written': (16, 8), 'mixed': (5, 8), 'image_udf': (5, 8),
+                           'image_joliet': (16, 8), 'added_laid_rr': (5, 8)})),
+        ('b5', _boot_plan([1, 13, 4], 6,                                 # 5, 65, 20 bytes
+                          {'added': (13, 12), 'written': (1, 12), 'mixed': (4, 12)})),
     ],
 }
 BOUNDS = {
@@ -515,20 +667,23 @@ def run(ctx):
         for (s, plan) in PLANS[tier]:
             tour = any('tour' in kinds for (_b, _u, kinds) in plan)
             jobs.append(dict(shape=s, alpha='full', dump='edges' if tour else 'none', maxlen=12))
-            jobs.append(dict(shape=s, alpha='full', dump='full', maxlen=bd['sim_len'], simulate=bd['sim_n'],
-                             seed=ctx.seed + 1))
+            if any('sim' in kinds for (_b, _u, kinds) in plan):
+                jobs.append(dict(shape=s, alpha='full', dump='full', maxlen=bd['sim_len'], simulate=bd['sim_n'],
+                                 seed=ctx.seed + 1))
             if s == 'zm':
                 jobs.append(dict(shape=s, alpha='core', dump='hist', maxlen=bd['hist_len']))
         mp = multiprocessing.get_context('fork')
-        with mp.Pool(min(len(jobs), 6)) as pool:
-            results = pool.map(_mc_star, jobs)
+        with mp.Pool(min(len(jobs), 8)) as pool:
+            results = pool.map(_mc_star, jobs, chunksize=1)
         sets = {}      # shape -> {'tour': [...], 'hist': [...], 'sim': [...]}
         lens_of = {}
+        table_of = {}
         states = transitions = 0
         mc_stats = []
         for (job, (hists, lens, stats)) in zip(jobs, results):
             s = job['shape']
             lens_of[s] = lens
+            table_of[s] = stats['tablefiles']
             kind = {'edges': 'tour', 'none': 'tour', 'full': 'sim', 'hist': 'hist'}[job['dump']]
             if kind == 'hist':
                 hists = [h for h in hists if len(h) == job['maxlen']]
@@ -552,6 +707,7 @@ def run(ctx):
         shards_by_shape = {}
         total_traces = total_events = 0
         fixtures_desc = []
+        content_obs = []
         for (shape, plan) in PLANS[tier]:
             lens = lens_of[shape]
             _FX = []
@@ -559,7 +715,8 @@ def run(ctx):
             index = {}
             pairs = []
             for (backing, units, kinds) in plan:
-                fx = Fixture(backing, units, lens, scratch)
+                fx = Fixture(backing, units, lens, scratch, table_of[shape])
+                content_obs += [dict(o, id=shape + '/' + o['id']) for o in fx.content_obs]
                 _FX.append(fx)
                 fi = len(_FX) - 1
                 fixtures_desc.append(dict(fx.describe(), shape=shape, behaviours=0, sets=kinds))
@@ -579,7 +736,7 @@ def run(ctx):
             # replay in up to 16 processes; one Trace_Stream document per <= 6000 traces (a JVM
             # start costs more than a thousand traces)
             nshards = max(1, -(-len(pairs) // 6000))
-            per = 2 if 600 <= len(pairs) and nshards <= 8 else 1
+            per = -(-16 // nshards) if len(pairs) >= 600 else 1
             outdir = os.path.join(scratch, 'traces-' + shape)
             os.makedirs(outdir)
             nparts = nshards * per
@@ -593,6 +750,8 @@ def run(ctx):
                 _join_parts(mine, path)
                 done.append((path, sum(p[1] for p in mine), sum(p[2] for p in mine)))
             shards_by_shape[shape] = (done, list(_FX), list(_BEH))
+            print('[C16]   shape %s: %d fixtures, %d behaviours replayed (%.1fs since start of replay)' % (
+                shape, len(_FX), len(pairs), det.real_time() - t1), flush=True)
             total_traces += sum(d[1] for d in done)
             total_events += sum(d[2] for d in done)
         print('[C16] replayed %d behaviours (%d calls) on pycdlib at %s (%.1fs)' % (
@@ -603,7 +762,7 @@ def run(ctx):
         vjobs = []
         for shape in shards_by_shape:
             for (path, _n, _e) in shards_by_shape[shape][0]:
-                vjobs.append((path, lens_of[shape], True))
+                vjobs.append((path, lens_of[shape], True, tuple(table_of[shape])))
         with mp.Pool(min(10, len(vjobs))) as pool:
             vres = pool.map(validate_file, vjobs, chunksize=1)
         ended = 0
@@ -629,8 +788,11 @@ def run(ctx):
                     fx = fxs[fi]
                     failing_traces.add((shape, d['tid']))
                     for fl in d['fails']:
+                        # in model terms: clause, what preceded, the call, the kind of file it
+                        # addressed (table = carries a boot info table), how the object came about
                         sig = {'clause': fl['clause'], 'cause': fl['cause'], 'after': sorted(fl['after']),
-                               'act': d['act']}
+                               'act': d['act'], 'file': d['kind'], 'object': fx.base, 'path_kind': fx.kind,
+                               'exception': d['exc']}
                         key = '%s cause=%s after=%s' % (fl['clause'], fl['cause'], '+'.join(sorted(fl['after'])))
                         clause_counts[key] = clause_counts.get(key, 0) + 1
                         detail = {'backing': fx.backing, 'units': fx.unitname, 'path_kind': fx.kind,
@@ -642,6 +804,24 @@ def run(ctx):
                         ctx.violation(sig, detail, rep)
         print('[C16] TLC validated %d traces, %d events with failing clauses (%.1fs)' % (
             ended, ndiag, det.real_time() - t2), flush=True)
+
+        # ---- 3b. TLC judges the content used for the boot-info-table files -----------------------
+        (cfails, _cstats) = judge.judge('Judge_StreamContent', content_obs)
+        for o in content_obs:
+            for c in cfails.get(o['id'], []):
+                (shape, backing, units, f) = o['id'].split('/')
+                (base, pk) = split_backing(backing)
+                sig = {'clause': c, 'cause': 'none', 'after': ['none'], 'act': 'Write', 'file': 'table',
+                       'object': base, 'path_kind': PATHKINDS.get(pk, 'iso_path'), 'exception': ''}
+                clause_counts[c] = clause_counts.get(c, 0) + 1
+                detail = {'backing': backing, 'units': units, 'shape': shape, 'bytes': len(o['orig'])}
+                ctx.violation(sig, detail, {
+                    'how': 'Fixture(backing, units, lens, scratch, ["b"]): the image written by the twin object, the '
+                           'boot file located by harness/decoders/iso9660.py; see spec/Judge_StreamContent.tla',
+                    'observation': o, 'detail': detail})
+        ctx.note('boot_info_table_contents_judged', len(content_obs))
+        print('[C16] TLC judged the content of %d boot-info-table files, %d with failing clauses' % (
+            len(content_obs), len(cfails)), flush=True)
 
         # ---- 4. evidence -----------------------------------------------------------------------
         ctx.coverage.update({
@@ -657,10 +837,18 @@ def run(ctx):
                     'properties StreamsIndependent, RefusedChangesNothing, ClosedRefused checked by TLC; '
                     'behaviours = one per transition (tour) + all histories of the core alphabet of length %d '
                     '+ %d seeded -simulate behaviours of length %d per shape; each replayed on the backings '
-                    'listed in fixtures and validated by Trace_Stream' % (
+                    'listed in fixtures and validated by Trace_Stream; shapes b* have a boot file with a boot '
+                    'info table (content = Overlaid(original, table), judged by Judge_StreamContent)' % (
                         '+'.join(shapes), bd['hist_len'], bd['sim_n'], bd['sim_len']),
             'model_runs': mc_stats,
             'fixtures': fixtures_desc,
+            'boot_info_table_files': {
+                'fixtures': len(content_obs),
+                'lengths_bytes': sorted({len(o['orig']) for o in content_obs}),
+                'backings': sorted({o['id'].split('/')[1] for o in content_obs}),
+                'behaviours_replayed': sum(f['behaviours'] for f in fixtures_desc if f['boot_info_table_files']),
+                'content_clauses': 'Judge_StreamContent: FileOnImage, ExpectedIsOverlay, ImageHoldsOverlay, '
+                                   'TableIsThere'},
             'calls_replayed': total_events,
             'traces_with_failing_clauses': len(failing_traces),
             'failing_clause_counts': clause_counts,
@@ -689,7 +877,9 @@ def run(ctx):
             'TLC/SANY and the Json community module are trusted',
             'the harness locates returned bytes in the known content at unit-aligned positions; contents are '
             'pseudo-random with pairwise distinct units, so a located position is unique',
-            'boot files carrying a boot-info table are excluded (their expected bytes belong to C11)',
+            'the content of a boot file with a boot info table is taken to be what the written image holds at the '
+            'file\'s extent (table bytes read from the image written by a twin object, extent from the independent '
+            'decoder); whether the TABLE VALUES are right is C11\'s business',
             'block sizes and read sizes are the classes {1, 7, 2048, 8192, L, L+1} / {0, 1, 2, L, L+1, None} units',
         ])
     finally:
